@@ -648,6 +648,21 @@ def proof_part(prop, res):
     bad = audit_sources()
     if bad:
         res["broken"].append(dict(what="forbidden construct in the development", detail="; ".join(bad[:10])))
+    if res["tier"] == "thorough":
+        # independent re-check of the compiled property file(s) and everything they depend on
+        for m in mods:
+            if not os.path.exists(os.path.join(COQ, m + ".vo")):
+                continue
+            rc, o, e = sh(["coqchk", "-o", "-silent", "-Q", COQ, "Capp", "Capp." + m], timeout=1800)
+            summary = (o + e)[(o + e).find("CONTEXT SUMMARY"):][:1500]
+            ok_ = rc == 0 and "* Axioms: <none>" in summary and "type-in-type: <none>" in summary and \
+                "unsafe (co)fixpoints: <none>" in summary and "positivity is assumed: <none>" in summary
+            res["extra"].setdefault("coqchk", {})[m] = "ok: no axioms, no type-in-type, no unsafe fixpoints, no assumed positivity" if ok_ else summary
+            res["obligations"] += 1
+            if ok_:
+                res["discharged"] += 1
+            else:
+                res["broken"].append(dict(what="coqchk does not accept %s" % m, detail=(o + e)[-1500:]))
 
 
 def new_res(prop, tier, seed):
